@@ -17,7 +17,7 @@ import (
 func init() {
 	register(Property{ID: "C13", Level: "proof", Run: runC13,
 		Technique: "static analysis: field-coverage comparison over the type-checked AST of Core.createResources / Core.closeResources (use-set vs compare-set per component, dependency closure, ordering)",
-		Text:      "For each of the components created in Core.createResources, every conf.Conf field read while creating it (condition, literal, helper arguments) is either compared in the component's close predicate in Core.closeResources (directly, or through an or-ed predicate of another component) or handed to an in-place Reload* call guarded by the negated predicate; every other component it references is in the closure of its predicate; dependants are closed before and created after their dependencies; every predicate contains newConf == nil; clause 2 (unchanged => kept): every compared field is used by the component and no pointer-typed field is compared by identity. Obligations = (component, field) and (component, dependency) pairs, all discharged or listed as findings. For the components reloaded in place (every Reload* method called by Core.closeResources) it is also decided on the SSA that the payload reaches a field of the component (not dropped) and that, in each function applying it, no value derived from the previous content of that field (an interval, a timer, a channel built from it) is used after the store without the field being read again - so the running service does not keep a schedule or state computed from the old configuration. Not decided: that everything re-derived is complete (state kept in other fields of the component).",
+		Text:      "For each of the components created in Core.createResources, every conf.Conf field read while creating it (condition, literal, helper arguments) is either compared in the component's close predicate in Core.closeResources (directly, or through an or-ed predicate of another component) or handed to an in-place Reload* call guarded by the negated predicate; every other component it references is in the closure of its predicate; dependants are closed before and created after their dependencies; every predicate contains newConf == nil; clause 2 (unchanged => kept): every compared field is used by the component and no pointer-typed field is compared by identity. Obligations = (component, field) and (component, dependency) pairs, all discharged or listed as findings. For the components reloaded in place (every Reload* method called by Core.closeResources) it is also decided on the SSA that the payload reaches a field of the component (not dropped) and that, in each function applying it, no value derived from the previous content of that field (an interval, a timer, a channel built from it) is used after the store without the field being read again - so the running service does not keep a schedule or state computed from the old configuration; and that at every hop of the reload chain (the Reload* methods called by closeResources, the run loops that receive their payload, the handlers those call, and the reload methods these call in turn: path manager -> path -> static source handler) the payload is stored or handed on on EVERY path from the point it enters the function to the return / the next wait of the run loop, so no state of the component (e.g. a source waiting to be re-created) makes it drop a reload. Not decided: that everything re-derived is complete (state kept in other fields of the component).",
 		Note:      "trusted: go/types; the component's Initialize() reads only the fields set in its literal (the literal is the component's whole configuration); reflect.DeepEqual / slices.Equal semantics"})
 	addMutants(
 		Mutant{"C13", "drop-hls-cdnsecret-compare", "internal/core/core.go",
@@ -71,16 +71,19 @@ type c13flag struct {
 }
 
 func runC13(c *Ctx) {
+	defer dumpObls(c)
 	p := c.Main()
 	if p == nil {
 		return
 	}
 	c.Explain = "USE(X) = currentConf.F selectors inside the creation block of component X in Core.createResources; DEP(X) = p.<component> selectors and `Parent: p` there; CMP(X) = fields compared in closeX := ... in Core.closeResources; INC(X) = or-ed close flags; HOT(X) = newConf.F selectors in an if guarded by !closeX. Rules: USE ⊆ CMP* ∪ HOT (closure over INC); DEP ⊆ INC*; newConf == nil in every flag; close block exists per component; dependants closed before / created after dependencies; CMP ⊆ USE* ; no pointer identity comparison. The two configurations are told apart by role (new = the *conf.Conf parameter of closeResources, current = any other *conf.Conf expression), close flags are the locals that guard a `p.X = nil` (whatever they are called), single-definition locals are names for their defining expression (conditions, arguments, literals), `!`/De Morgan/operand order/nested-vs-merged ifs are immaterial (prop_gen_c13.go). Not decided: what Initialize() does with the fields."
 	c.Assume = []string{"a component's behaviour depends on the configuration only through the conf fields read in its creation block"}
-	c.Explain += " reload_applied (go/ssa, prop_r3_c13.go): for every Reload* method Core.closeResources calls, stored: its payload parameter flows (through selects/sends on a struct-field channel, received by the component's run loop, and static calls) into a Store to a field F of the component; no_stale: in every function of the component's package that stores F or calls a function that does, a walk from that point reaches no instruction with an operand derived (data flow from loads of F and from results of functions reading F, through locals) from F, unless a new read of F is passed first."
+	c.Explain += " reload_applied (go/ssa, prop_r3_c13.go): for every Reload* method Core.closeResources calls, stored: its payload parameter flows (through selects/sends on a struct-field channel, received by the component's run loop, and static calls) into a Store to a field F of the component; no_stale: in every function of the component's package that stores F or calls a function that does, a walk from that point reaches no instruction with an operand derived (data flow from loads of F and from results of functions reading F, through locals) from F, unless a new read of F is passed first. every_path: hops (f, v) = payload parameters of the Reload* methods called by closeResources, values received from a struct-field channel the payload was sent on, parameters of module functions the payload is passed to, and the parameters of every reload* method called by a function of the chain; APPLY(f, v) = stores of v (or of a variable that only names it) into a field of a non-fresh object / a variable declared outside the receiving statement, sends of v, calls passing v to a function where it transitively reaches such an instruction; a walk from the entry of v (function entry / after the receive) to a return (parameters) or to the receiving instruction again (run loops) must execute an APPLY instruction, except on edges where v was compared equal to something."
 
 	// an in-place reload really reloads (prop_r3_c13.go)
 	c13ReloadApplied(c, p)
+	// ... on every path, at every hop of the chain down to the static source handlers (prop_r4_c13.go)
+	c13EveryPathR4(c, p)
 
 	cr, pk := p.FuncDecl("internal/core", "Core", "createResources")
 	cl, _ := p.FuncDecl("internal/core", "Core", "closeResources")
